@@ -94,8 +94,8 @@ theorem copy_handler_consults_clone_only (c c' : Ctx) (hd : c.d = c'.d) (hclone 
     (hscan : ∀ {α : Type} (mine : TraitId → Bool) (build : TraitMeta → Res α) (dflt : α) (attrs : List Attribute),
         fromAttrs c.F c.traits mine build dflt attrs = fromAttrs c'.F c'.traits mine build dflt attrs)
     (m : TraitMeta) :
-    markerHandler c m .copy .clone "::core::marker::Copy" "::core::clone::Clone"
-      = markerHandler c' m .copy .clone "::core::marker::Copy" "::core::clone::Clone" := by
+    markerHandler c m .copy .clone "::core::marker::Copy" "::core::clone::Clone" true
+      = markerHandler c' m .copy .clone "::core::marker::Copy" "::core::clone::Clone" true := by
   unfold markerHandler
   simp only [hclone, hd, variantNoAttr, hscan]
 
@@ -209,8 +209,8 @@ theorem cloneHandler_traits {c : Ctx} {tr₂ : TraitId → Bool} {m : TraitMeta}
   simp (disch := agdisch H) only [fromAttrs_traits (tr₁ := c.traits) (tr₂ := tr₂), variantNoAttr_traits (c := c) (tr₂ := tr₂), hcopy]
   rfl
 
-theorem markerHandler_traits {c : Ctx} {tr₂ : TraitId → Bool} {m : TraitMeta} {me p b s} (H : InputAgree c.F c.traits tr₂ c.d)
-    (hp : c.traits p = tr₂ p) : markerHandler c m me p b s = markerHandler (withTraits c tr₂) m me p b s := by
+theorem markerHandler_traits {c : Ctx} {tr₂ : TraitId → Bool} {m : TraitMeta} {me p b s w} (H : InputAgree c.F c.traits tr₂ c.d)
+    (hp : c.traits p = tr₂ p) : markerHandler c m me p b s w = markerHandler (withTraits c tr₂) m me p b s w := by
   unfold markerHandler
   simp (disch := agdisch H) only [fromAttrs_traits (tr₁ := c.traits) (tr₂ := tr₂), variantNoAttr_traits (c := c) (tr₂ := tr₂), hp]
   rfl
